@@ -41,6 +41,10 @@ def _needs_quote(name: str) -> bool:
 	- It parses as a number
 	- It collides with Vector/Table reserved method names
 	"""
+	# Names that are not strings (Table({1: [...]}), Vector(..., name=5)) are shown by their repr
+	if not isinstance(name, str):
+		return True
+
 	# Always quote empty names
 	if not name:
 		return True
@@ -175,6 +179,8 @@ def _is_structural_change(display_name: str, sanitized_name: str) -> bool:
 	Returns False if only case changed.
 	"""
 	if not display_name or not sanitized_name:
+		return True
+	if not isinstance(display_name, str):
 		return True
 	
 	# If lowercasing the display name equals sanitized, it's just case change
